@@ -51,6 +51,7 @@ func main() {
 	raw := flag.Bool("raw", false, "hand-offs through raw pipe system calls (for -race builds)")
 	only := flag.String("scenario", "", "run only this scenario")
 	replay := flag.String("replay", "", "comma-separated choices (with --scenario)")
+	longBound := flag.Int("long-bound", 1, "preemption bound for whole-program seed scenarios")
 	from := flag.Int("from", 0, "first scenario index")
 	to := flag.Int("to", 1<<30, "end scenario index (exclusive)")
 	flag.Parse()
@@ -87,7 +88,9 @@ func main() {
 		sum.Scenarios++
 		prg, err := goja.Compile("c16.js", sc.Src, false)
 		if err != nil {
-			sum.Violations = append(sum.Violations, violation{Scenario: sc.Name, Sig: "harness|compile", What: err.Error()})
+			if !sc.Long { // seed programs that goja rejects are simply not part of the space
+				sum.Violations = append(sum.Violations, violation{Scenario: sc.Name, Sig: "harness|compile", What: err.Error()})
+			}
 			continue
 		}
 		// isolated result: fresh runtime, fresh shared values, nothing else running
@@ -159,7 +162,11 @@ func main() {
 			check(res)
 			continue
 		}
-		n, ex := sched.Explore(*bound, 20000, mk, check, func() bool { return time.Now().After(deadline) })
+		b := *bound
+		if sc.Long && b > *longBound {
+			b = *longBound
+		}
+		n, ex := sched.Explore(b, 20000, mk, check, func() bool { return time.Now().After(deadline) })
 		sum.Execs += n
 		if !ex && time.Now().After(deadline) {
 			sum.Exhausted = false
